@@ -2,6 +2,7 @@
 mod c03;
 mod c04;
 mod c06;
+mod c07;
 mod c08;
 mod c09;
 mod c10;
@@ -44,6 +45,9 @@ fn main() {
         "arms-replay" => c08::cmd_replay(rest),
         "consts-replay" => c12::cmd_replay(rest),
         "determinism" => c06::cmd_determinism(rest),
+        "frontend-batch" => c07::cmd_batch(rest),
+        "frontend-run" => c07::cmd_run(rest),
+        "tokens-debug" => c07::cmd_tokens_debug(rest),
         "c16-replay" => c16::cmd_replay(rest),
         "c16-products" => c16::cmd_products(rest),
         "compile-one" => corpus::cmd_compile_one(rest),
